@@ -402,6 +402,47 @@ def r6(ctx, facts):
         r.instance("%s:field-writes-found" % name, n >= len([f for f in fields if f[1] is not None]), "%d field serializations found" % n, b.span, nontrivial=False)
 
 
+def r7(ctx, facts):
+    r = ctx.rule("R7", "by-name type_check looks at every field / column the database lists before it accepts", floor=5)
+    from ..util import dj_of
+    from .c10 import ok_sites
+    for name, (kind, flavor, fields, der) in FAMILY.items():
+        if flavor != "name" or "d" not in der:
+            continue
+        tr = "scylla_cql_core::deserialize::row::DeserializeRow" if kind == "row" else "scylla_cql_core::deserialize::value::DeserializeValue"
+        b = find_body(facts, r"^<derive_family::%s as %s<'lifetime, 'lifetime_>>::type_check$" % (name, re.escape(tr)))
+        dj = dj_of(b, facts)
+        oks = {bb for bb, _ in ok_sites(b)}
+        loops = [c for bb, c in b.calls() if bb in b.live_blocks and (c.decl or "").endswith("Iterator::next") and any(c.bb in b.reachable_from(x) for x in b.succ[c.bb])]
+        if not loops or not oks:
+            raise AnchorLost("%s::type_check: no loop over the listed fields (%d) or no Ok exit (%d)" % (name, len(loops), len(oks)))
+        for i, c in enumerate(loops):
+            root = dj.disc_root(dj.canon.path(c.dest))
+            early = []
+            for sw in sorted(b.live_blocks):
+                t = b.term(sw)
+                if t[0] != "switch":
+                    continue
+                e = dj.expr_of_operand(t[1])
+                if e != ("disc", root):
+                    continue
+                vals, other = switch_edges_(b, sw)
+                some_t = vals.get(1, other if 0 in vals else None)
+                if some_t is None:
+                    continue
+                reach = dj.feasible_reach_edge(sw, some_t, removed_nodes={c.bb})
+                if reach & oks:
+                    early.append(str(b.term_span(sw)))
+            r.instance("%s:accepts-only-after-the-last-listed-field#%d" % (name, i), not early,
+                       "after looking at one listed field, type_check can return Ok without asking the iterator for the next one: what the database lists further on is never "
+                       "checked (excess fields under forbid_excess_udt_fields, the type of a present allow_missing field, duplicates), so acceptance depends on the listing order", c.span)
+
+
+def switch_edges_(b, sw):
+    t = b.term(sw)
+    return {int(v): tg for v, tg in t[2]}, t[3]
+
+
 def check(ctx):
     facts = ctx.facts("family")
     sers = {}
@@ -409,7 +450,7 @@ def check(ctx):
         sers = r1(ctx, facts)
     except AnchorLost as ex:
         ctx.rule("R1x", "anchors").fail("anchor-lost", str(ex))
-    for fn in ((lambda c, f: r2(c, f, sers)), r3, r4, r5, r6):
+    for fn in ((lambda c, f: r2(c, f, sers)), r3, r4, r5, r6, r7):
         try:
             fn(ctx, facts)
         except AnchorLost as ex:
